@@ -20,6 +20,16 @@ def prop(pid, level, explanation, trusted=()):
 
 # ---------------------------------------------------------------------------
 
+def plumbing(ctx, mergetree=True):
+    """The library's own merge-history generator and attach path (helpers.py): properties stated over 'any history of adds and
+    merges' are also exercised through parallel_merging / attach_shared_memory, so the schedule (every sketch merged exactly once,
+    none with itself) and the rebuilding of attached views from the owner's recorded arguments are necessary conditions there."""
+    if mergetree:
+        RP.rule_mergetree(ctx)
+    RT.rule_attach_table(ctx)
+
+
+
 @prop("C18", "other",
       "Checked-arithmetic discipline decided statically: every value stored into a uint32/uint16/uint8 counter cell "
       "(count-min tables, heavy-hitter counts) is proven to lie in [0, ceiling] from the guards that dominate the store "
@@ -97,6 +107,7 @@ def c01(ctx):
     RT.rule_deleg(ctx, lin)
     RT.rule_persist(ctx, lin)
     RT.rule_layout(ctx, lin)
+    plumbing(ctx)
     ctx.floor("qmin", 5)
     ctx.floor("cons", 3)
     ctx.floor("msum", 3)
@@ -131,6 +142,7 @@ def c05(ctx):
     RT.rule_window(ctx, COUNTMIN)
     RT.rule_layout(ctx, COUNTMIN)       # "at most one counter per row changes, n_added grows by v": the table and the bookkeeping counters
     #                                     of a shared-memory sketch must be disjoint segments of its block
+    plumbing(ctx, mergetree=False)
     ctx.floor("no-skip", 6)
     ctx.floor("qmin", 15)
     ctx.floor("cons", 9)
@@ -174,6 +186,7 @@ def c03(ctx):
     RT.rule_deleg(ctx, hh)
     RT.rule_persist(ctx, hh)
     RT.rule_post_load(ctx)
+    plumbing(ctx)
     ctx.floor("window", 4)
     ctx.floor("keyid", 3)
     ctx.floor("bm-table", 8)
@@ -216,6 +229,7 @@ def c04(ctx):
     RA.rule_call_range(ctx, only=RA.class_kernels(F, hh))
     RT.rule_deleg(ctx, hh)
     RT.rule_value_fwd(ctx, hh)
+    plumbing(ctx)
     ctx.floor("keyid", 3)
     ctx.floor("bm-table", 8)
     ctx.floor("keynorm", 4)
@@ -417,6 +431,7 @@ def c02(ctx):
     RT.rule_deleg(ctx, hll)
     RT.rule_wrapper_once(ctx, hll)
     RT.rule_state_owner(ctx, hll)
+    plumbing(ctx)
     ctx.floor("nlz", 66)
     ctx.floor("join", 3)
     ctx.floor("indep", 1)
@@ -463,11 +478,26 @@ from . import rules_misc as RM
       "heavy-hitter _add and _max_count) fasthash64 is called once per row inside `for row in range(depth)` with a seed that is an "
       "injective function of the row, the result is reduced modulo the width parameter, and every table access of that iteration is "
       "[row, that column]; and the hash itself is computed from its seed on every path (seeddep: definite syntactic dependency of each "
-      "return of fasthash64 on `seed`, loops followed to a fixed point). The statistical statement (uniformity, independence across seeds, the exp(-depth) tail) is NOT decided.")
+      "return of fasthash64 on `seed`, loops followed to a fixed point); and the linear sketch's table integrity as in C01 (qmin, cons, newcount, msum, merge guard-set), without which the bound is void whatever the hashes do. The statistical statement (uniformity, independence across seeds, the exp(-depth) tail) is NOT decided.")
 def c14(ctx):
     n = RM.rule_seedrow(ctx)
     RM.rule_seeddep(ctx)
     RA.rule_bind(ctx, [c for c in SKETCH_CLASSES if c[1] != "HyperLogLog"])
+    # "estimate <= true + e*N/width except with probability exp(-depth)" is a statement about the LINEAR sketch's table: every cell
+    # must hold only what keys hashing to it AT THIS WIDTH contributed, and the estimate must be the minimum over the d cells --
+    # the table-integrity clauses of C01 (a merge that folds a narrower table in, or a query that skips rows, voids the bound
+    # although every single hash is still uniform and independent)
+    F = facts_of(ctx)
+    lin = [("countmin", "CountMinLinear")]
+    lcls = ctx.model.cls("countmin", "CountMinLinear")
+    own = {c.callee.key for mname in ("query", "add") if mname in lcls.methods for c in F.calls_from(lcls.methods[mname]) if c.callee.is_kernel}
+    own_all = RA.class_kernels(F, lin)
+    RA.rule_qmin(ctx, [k for k in RA.query_kernels(F) if k.key in own])
+    RA.rule_cons(ctx, [k for k in RA.add_kernels(F) if k.key in own])
+    RA.rule_newcount(ctx, only=own_all)
+    RA.rule_msum(ctx)
+    with ctx.only({"guard-set"}):
+        RT.rule_mergeguard(ctx, lin)
     ctx.floor("seedrow", 10)
     ctx.undecided_clauses.append("uniformity of FastHash within a row and independence across seeds; the exp(-depth) bound itself -- statistical, not decided")
 
@@ -499,6 +529,7 @@ def c06(ctx):
     # it are written without loss and handed back to the constructor in their own positions
     with ctx.only({"lossless-args", "ctor-args"}):
         RT.rule_persist(ctx, COUNTMIN[1:])
+    plumbing(ctx, mergetree=False)
     ctx.floor("randtoken", 10)
     ctx.floor("batchconst", 7)
     ctx.floor("expo", 5)
@@ -532,6 +563,7 @@ def c09(ctx):
     RT.rule_wrapper_once(ctx, COUNTMIN, ("merge",))
     RT.rule_state_owner(ctx, COUNTMIN, methods=("merge",))
     RT.rule_observers(ctx, COUNTMIN)
+    RA.rule_findbase_post(ctx)       # decode/re-encode use self.base: it must be this sketch's own solved base (not a shared or cached one)
     ctx.floor("other-ro", 3)
     ctx.floor("msum", 3)
     ctx.floor("cover", 6)
@@ -615,12 +647,22 @@ def c08(ctx):
       "the handler the iteration ends normally having added exactly 0 records (cb-guard); the monitor inspects the exit code of every started worker "
       "and treats every non-zero, non-None code as failure (dead-detect); on failure all workers and the filler are killed before the "
       "unconditional joins (dead-cleanup); from the failure branch every path to a return passes through a raise -- explicit, or a put on "
-      "a queue the branch closed (queue typestate open->closed; put on closed raises ValueError) (dead-raise). Not decided: wall-clock "
+      "a queue the branch closed (queue typestate open->closed; put on closed raises ValueError) (dead-raise); and the C08 protocol clauses that "
+      "carry every successful item's contribution and record count into the returned sketches (once, nrecs, joinfirst, mergetree). Not decided: wall-clock "
       "termination bounds; a worker that hangs without dying.",
       trusted=("multiprocessing.Queue.put on a closed queue raises ValueError (CPython queues.py)",))
 def c19(ctx):
     RP.rule_cb_guard(ctx)
     RP.rule_dead(ctx)
+    # "... returns sketches that contain every other item's full contribution, with n_records() counting only the successful items":
+    # the protocol clauses of C08 that carry a successful item's contribution and record count into the result
+    RP.rule_once(ctx)
+    RP.rule_nrecs(ctx)
+    RP.rule_joinfirst(ctx)
+    RP.rule_mergetree(ctx)
+    F = facts_of(ctx)
+    mk = RA.merge_kernels(F)
+    RA.rule_sumcounters(ctx, [k for k in mk if F.param_for(k, "n_added_records")], rule="nrecs")
     ctx.floor("cb-guard", 5)
     ctx.floor("dead-detect", 3)
     ctx.floor("dead-cleanup", 3)
